@@ -449,6 +449,30 @@ func runC15(c c15Case) (msg string, labels []string, nontrivial bool) {
 		lab["accepted-without-partition"] = true
 		return "", keys(lab), false
 	}
+	// documents that carry the trigger of a listed finding are not judged (the structured generator avoids them by
+	// construction, the byte level target cannot)
+	if harness.Excluded("unbuildable-placement-rule") {
+		for _, p := range conf.Partitions {
+			for _, r := range p.PlacementRules {
+				if !buildableRule(r) {
+					lab["skipped-listed-finding-unbuildable-placement-rule"] = true
+					return "", keys(lab), false
+				}
+			}
+		}
+	}
+	if harness.Excluded("child-queue-named-root") {
+		named := false
+		walkQ(&conf.Partitions[0].Queues[0], func(q *configs.QueueConfig, d int) {
+			if d > 0 && strings.EqualFold(q.Name, "root") {
+				named = true
+			}
+		}, 0)
+		if named {
+			lab["skipped-listed-finding-child-queue-named-root"] = true
+			return "", keys(lab), false
+		}
+	}
 	depth, sparse := 0, 0
 	walkQ(&conf.Partitions[0].Queues[0], func(q *configs.QueueConfig, d int) {
 		if d > depth {
